@@ -9,7 +9,8 @@
 (* on and the projected state TLC computed.                                  *)
 EXTENDS ServiceIsolation, Json
 
-CONSTANT Depth
+CONSTANTS Depth,
+          EvictingOnly   \* TRUE: only flushes that throw the entry out (a flush of an empty cache changes nothing)
 VARIABLE h
 
 Mid == {r \in Reqs : pc[r] \in {"hit", "miss", "failed"}}
@@ -37,7 +38,8 @@ GenInit == Init /\ h = <<>>
 GenNext == /\ ~Terminal /\ Len(h) < Depth
            /\ Next
            /\ (Mid # {} => last'.r \in Mid)
-           /\ (last'.act = "Flush" => \E r \in Reqs : pc[r] # "done")
+           /\ (last'.act = "Flush" => /\ \E r \in Reqs : pc[r] # "done"
+                                     /\ (EvictingOnly => cur # 0))
            /\ h' = IF Mid' = {}
                    THEN Append(h, [call |-> [act |-> last'.act, r |-> last'.r,
                                              reply |-> IF crashed' THEN "crash"
